@@ -54,6 +54,9 @@ def describe(e):
         return f"{e['what']} generated under a zero window at scalar draw {e['offset']} (width {e['width']}): outcome {e['out']}, facts {e['facts']}"
     if ev in ("nonce", "statenonce", "noncedecode", "tagsep", "cid", "crafted"):
         return f"{ev}: {json.dumps(e)[:500]}"
+    if ev == "pedersen_lifecycle":
+        return (f"Pedersen parameters ({e['group']}, N={e['N']}), history '{e['history']}': commitment correct before = {e['before_ok']}, after = {e['after_ok']}, "
+                f"a commitment made under the old generators still opens = {e['old_commitment_opens_under_new_generators']}")
     if ev == "pedersen":
         bad = [p for p in e["perturbed"] if p["verdict"] or p["verdict"] != p["recomputed_eq"]]
         return (f"Pedersen commitment ({e['group']}, N={e['N']}, {e['params']}, m={e['m']}, r={e['r']}): element equals independent h^r*prod g_i^m_i: {e['elem_eq_independent']}, "
@@ -112,13 +115,13 @@ def check_C09(tier, seed):
     t0 = time.time()
     build_harness()
     ms = [tlc_model("Pedersen", c, workers=8, name="mc_ped") for c in (["MC_Pedersen_N1.cfg", "MC_Pedersen_N2.cfg"] + ([] if tier == "quick" else ["MC_Pedersen_N3.cfg"]))]
-    ev = run_lib("C09", "pedersen", tier, seed, "Trace_Pedersen", lambda e: e["ev"] == "pedersen")
+    ev = run_lib("C09", "pedersen", tier, seed, "Trace_Pedersen", lambda e: e["ev"] in ("pedersen", "pedersen_lifecycle"))
     return lib_evidence("C09", tier, seed, ms, ev,
         "one evaluation = one commitment for G1 / G2, N in {1,2,3,5,8,13}, parameters generated by the library (read back through the wire form) or supplied explicitly (incl. g_1 = h), "
         "message and blinding factor from {0, 1, q-1, random} (incl. openings whose commitment is the identity element): element compared with an independent accumulation, original opening verified, "
         "every single-coordinate (+-1) and blinding-factor perturbation, a second opening and the homomorphism checked; distinct = (group, N, parameter kind, message class, blinding class)",
         "tlc Pedersen (AcceptsOriginal Exact SinglePerturbationRejects Homomorphic) + Trace_Pedersen on harness commitments", t0,
-        lambda e: (e["group"], e["N"], e["params"], tuple(e["m"]), e["r"]), ALG_ASSUME)
+        lambda e: (e["group"], e["N"], e.get("params", e.get("history")), tuple(e.get("m", [])), e.get("r", "")), ALG_ASSUME)
 
 
 def schnorr_models(tier):
